@@ -328,6 +328,41 @@ impl Prop for C19 {
             }
             rate += step;
         }
+        // the rate bounds from both sides at many intervals, odd and even numbers of milliseconds up to the 10-minute
+        // limit: tick counts that put the pair's rate just below, on and just above 1 Hz and 1500 Hz
+        {
+            let c = Endpoint::v4(10, 1, 0, 5, 50002);
+            let s = Endpoint::v4(10, 1, 0, 6, 80);
+            let mk = |k: usize, val: u32, gap_ms: u64| {
+                let h = Host { profile: 0, ts_hz: 1000, ts_base: 0, ttl: 64 };
+                let mut seg = if k == 0 { tcp::syn(&h, c, s, 1000, 0) } else { tcp::data(&h, c, s, 1001, 1, vec![], 0, 0, pkt::ACK) };
+                let mut o = if k == 0 { pkt::opt::mss(1460) } else { vec![] };
+                o.extend(pkt::opt::nop());
+                o.extend(pkt::opt::nop());
+                o.extend(pkt::opt::ts(val, 0));
+                seg.tcp_opts = o;
+                Pkt { gap_ns: gap_ms * 1_000_000, wall_jump_ms: 0, seg, tsval: Some(val) }
+            };
+            let mut gaps: Vec<u64> = vec![25, 26, 27, 33, 99, 101, 667, 999, 1001, 2001, 10_001, 29_999, 100_001, 333_333, 500_001, 500_003, 550_001, 599_997, 599_999, 600_000];
+            if tier == Tier::Thorough {
+                gaps.extend((500_001u64..600_000).step_by(2_003));
+            }
+            for ms in gaps {
+                let mut ticks: Vec<u64> = vec![];
+                for (num, den) in [(3u64, 2u64), (1, 1000)] {
+                    let t = ms * num / den;
+                    ticks.extend([t.saturating_sub(1), t, t + 1, t + 2]);
+                }
+                ticks.sort();
+                ticks.dedup();
+                for t in ticks {
+                    if t == 0 || t > 0x7fff_ffff {
+                        continue;
+                    }
+                    out.push(Scn { kind: Kind::Tcp, framing: Framing::Ethernet, cap: 16, pkts: vec![mk(0, 1_000_000, 0), mk(1, 1_000_000u32.wrapping_add(t as u32), ms)] });
+                }
+            }
+        }
         // unit boundaries of the reported uptime: the later TSval sits exactly on (and one tick either side of) a
         // whole number of days, hours or minutes at every value of the frequency grid
         let mut grid_values: Vec<u32> = (1..=1500u32).map(|r| grid(r as f64)).collect();
